@@ -14,6 +14,10 @@ import os
 WAIT = 20.0
 
 
+# modules whose code touches no state shared between threads (policies are not changed by a decision)
+PURE_MODULES = ('checker.py', 'parser.py', 'policy.py', 'audit.py', 'exceptions.py', 'effects.py')
+
+
 class Stuck(Exception):
     pass
 
@@ -23,9 +27,11 @@ class Deadlock(Exception):
 
 
 class Scheduler:
-    def __init__(self, preemptions=None, line_mode=False, repo=None, random_switch=None):
+    def __init__(self, preemptions=None, line_mode=False, repo=None, random_switch=None, cyclic=False, coarse=False):
         self.preempt = dict(preemptions or {})
         self.line_mode = line_mode
+        self.cyclic = cyclic              # when a thread finishes the next one in cyclic order goes on (round robin)
+        self.coarse = coarse              # line mode without yield points in the modules that only compute on local data
         self.repo = os.path.join(repo or os.environ.get('VAKT_REPO', '/repo'), 'vakt')
         self.memory_py = os.path.join(self.repo, 'storage', 'memory.py')
         self.random_switch = random_switch        # (rng, probability) for random deep schedules
@@ -90,6 +96,8 @@ class Scheduler:
         fn = frame.f_code.co_filename
         if not fn.startswith(self.repo):
             return None
+        if self.coarse and (os.path.basename(fn) in PURE_MODULES or os.sep + 'rules' + os.sep in fn):
+            return None
         if fn == self.memory_py:
             frame.f_trace_opcodes = True
         if event in ('line', 'opcode'):
@@ -124,8 +132,12 @@ class Scheduler:
                 self.unblock_all()
                 rest = [j for j, s in enumerate(self.state) if s in ('new', 'run', 'blocked')]
                 if rest:
-                    self.cur = rest[0]
-                    self.go[rest[0]].set()
+                    nxt = rest[0]
+                    if self.cyclic:
+                        later = [j for j in rest if j > i]
+                        nxt = later[0] if later else rest[0]
+                    self.cur = nxt
+                    self.go[nxt].set()
                 else:
                     done.set()
         ts = [threading.Thread(target=worker, args=(i,), daemon=True) for i in range(n)]
